@@ -50,7 +50,8 @@ typedef struct mem_block_s {
 #define A_FUNCTIONALS           21
 #define A_FUNCTION_DEFS         22
 #define A_VAR_TEMP              23	/* table of variables */
-#define NUMAREAS                24
+#define A_INIT_LINES            24	/* where each source line starts in A_INITIALIZER (see switch_to_line) */
+#define NUMAREAS                25
 
 extern mem_block_t mem_block[NUMAREAS];
 
